@@ -832,6 +832,71 @@ def check_L8(ctx, rep):
             rep.viol('L8', sc['path'], 'recomputed', 'shards_count() recomputes from the current rayon pool on each call')
     if n_ctor < 3:
         raise Broken('DashMap constructions found: %d (expected >= 3)' % n_ctor)
+    # the shard amount is admissible for DashMap (a power of two greater than 1) under every pool size >= 1: interval evaluation of
+    # the cell's initialiser with current_num_threads() / available_parallelism() in [1, inf)
+    init = cr.bodies.get(lazy[0]['path']) if len(lazy) == 1 else None
+    clo = None
+    if init is not None:
+        for y, _ in walk(init['tree']):
+            if y.get('k') == 'closure':
+                clo = y; break
+    if clo is None:
+        raise Broken('L8: initialiser closure of the shard amount cell not found')
+
+    def lower(e):
+        """-> (lower bound, is a power of two for sure)"""
+        e = strip(e)
+        k = e.get('k')
+        if k == 'block' and not e['ss'] and 'e' in e:
+            return lower(e['e'])
+        if k == 'lit' and str(e['v']).isdigit():
+            v = int(e['v'])
+            return v, v > 0 and v & (v - 1) == 0
+        if k == 'cast':
+            return lower(e['e'])
+        c = callee(e)
+        nm = cname(c) if c else ''
+        if k == 'call' and (nm.endswith('current_num_threads') or nm.endswith('max_num_threads')):
+            return 1, False
+        if k == 'mcall':
+            m = e['m']
+            if m == 'next_power_of_two':
+                lb, _ = lower(e['r'])
+                v = 1
+                while v < lb:
+                    v *= 2
+                return v, True
+            if m == 'max' and e['a']:
+                (a, pa), (b_, pb) = lower(e['r']), lower(e['a'][0])
+                return max(a, b_), pa and pb
+            if m == 'min' and e['a']:
+                (a, pa), (b_, pb) = lower(e['r']), lower(e['a'][0])
+                return min(a, b_), pa and pb
+            if m in ('saturating_mul', 'wrapping_mul') and e['a']:
+                (a, pa), (b_, pb) = lower(e['r']), lower(e['a'][0])
+                return a * b_, pa and pb
+            if m in ('map_or', 'unwrap_or') and e['a']:          # available_parallelism().map_or(1, usize::from)
+                return lower(e['a'][0])[0] if m == 'unwrap_or' else min(lower(e['a'][0])[0], 1), False
+            if m in ('get', 'into', 'clone'):
+                return lower(e['r'])
+        if k == 'binary':
+            (a, pa), (b_, pb) = lower(e['l']), lower(e['r'])
+            if e['op'] == '*':
+                return a * b_, pa and pb
+            if e['op'] == '+':
+                return a + b_, False
+            if e['op'] == '<<':
+                return a << b_, pa
+            if e['op'] in ('/', '>>', '-', '%'):
+                return 0, False
+        return 0, False
+    lb, pow2 = lower(clo['b'])
+    rep.inst('L8.shards', 'shard amount: lower bound %d over all pool sizes, power of two: %s' % (lb, pow2))
+    if lb < 2 or not pow2:
+        rep.viol('L8', lazy[0]['path'], 'shard-amount-inadmissible',
+                 'the shard amount is not provably a power of two greater than 1 for every pool size (lower bound %d with one worker thread, '
+                 'power of two: %s): DashMap::with_hasher_and_shard_amount asserts `shard_amount > 1` and `is_power_of_two` - every parallel '
+                 'program panics in Default::default() under a one-thread pool' % (lb, pow2), loc=cr.loc(clo))
     rep.floor('L8.static', 5, 'statics of the library crates')
 
 
